@@ -7,7 +7,10 @@
 // password) plays the steps of the behaviour:
 //   {"a":"Open","dom":"ok|wrong"}
 //   {"a":"Auth","ver":"sasl|sasl2","mech":"PLAIN|DIGEST-MD5|ANONYMOUS|X-UNKNOWN","cred":C,"b2":bool}
-//   {"a":"Response","ver":..,"cred":C}       C = right|wrongPw|otherUser|malformed|empty
+//   {"a":"Response","ver":..,"cred":C}       C = malformed|empty (payload shapes) or who x secret:
+//        right|wrongPw|ownEmpty (own account) otherUser|victimEmpty (the victim) unknownPw|unknownEmpty
+//        (no such account) embedEmpty|embedBareEmpty|embedSlashEmpty (no such account, the name embeds
+//        the victim's address) embedKnown (an account of the attacker's named "victim@example.org/x")
 //   {"a":"Abort","ver":..}
 //   {"a":"Bind","r":"ra|rv"}   {"a":"Session"}
 //   {"a":"Stanza","k":"message|presence|iq","f":"absent|own|ownBare|victim|other|ownOtherRes|ownSibling|ownCase|
@@ -46,6 +49,9 @@ namespace {
 
 const QString kDomain = QStringLiteral("example.org");
 const QString kAtt = QStringLiteral("attacker"), kAttPw = QStringLiteral("apw");
+const QString kNobody = QStringLiteral("nobody");                  // no such account
+const QString kEmb = QStringLiteral("victim@example.org/x");         // an account (the attacker's) whose NAME embeds the victim's address
+const QString kEmbPw = QStringLiteral("epw");
 const QString kSibRes = QStringLiteral("sib");   // resource of the attacker account's second (honest) session
 const QString kVic = QStringLiteral("victim"), kVicPw = QStringLiteral("vpw-secret"), kVicRes = QStringLiteral("rv");
 
@@ -66,28 +72,51 @@ public:
     QString scriptUser, scriptPw;    // what the attacker's script used to compute its digest response
     QJsonArray log;                  // records of the current step
 
-    QXmppPasswordReply *checkPassword(const QXmppPasswordRequest &req) override
+    // The checker is written the way the library documents ("the simplest way to write a password
+    // checker is to reimplement getPassword()"): unknown user -> AuthorizationError, the secret is
+    // not touched.  checkPassword()/getDigest() run the BASE-CLASS helpers of
+    // src/server/QXmppPasswordChecker.cpp (they are part of what C16 relies on); only the moment
+    // the reply is finished is taken over by the harness: the content of the library's reply is
+    // moved into a reply the harness finishes at a `Reply` step, the library's own (with its
+    // finishLater() timer) is deleted.
+    QXmppPasswordReply::Error getPassword(const QXmppPasswordRequest &req, QString &password) override
+    {
+        if (!creds.contains(req.username())) {
+            return QXmppPasswordReply::AuthorizationError;
+        }
+        password = creds.value(req.username());
+        return QXmppPasswordReply::NoError;
+    }
+    static QXmppPasswordReply *takeOver(QXmppPasswordReply *lib)
     {
         auto *reply = new QXmppPasswordReply;
-        bool ok = creds.contains(req.username()) && creds.value(req.username()) == req.password();
-        if (!ok) {
-            reply->setError(QXmppPasswordReply::AuthorizationError);
+        reply->setError(lib->error());
+        reply->setDigest(lib->digest());
+        reply->setPassword(lib->password());
+        delete lib;   // cancels its singleShot(0) finish
+        return reply;
+    }
+    QXmppPasswordReply *checkPassword(const QXmppPasswordRequest &req) override
+    {
+        auto *lib = QXmppPasswordChecker::checkPassword(req);
+        if (autoFinish) {
+            return lib;
         }
+        // ground truth, independent of the library: is this exactly that user's password
+        bool ok = creds.contains(req.username()) && creds.value(req.username()) == req.password();
+        auto *reply = takeOver(lib);
         ask(reply, "check", req.username(), ok);
         return reply;
     }
     QXmppPasswordReply *getDigest(const QXmppPasswordRequest &req) override
     {
-        auto *reply = new QXmppPasswordReply;
-        bool known = creds.contains(req.username());
-        if (known) {
-            reply->setDigest(QCryptographicHash::hash(
-                (req.username() + u':' + req.domain() + u':' + creds.value(req.username())).toUtf8(), QCryptographicHash::Md5));
-        } else {
-            reply->setError(QXmppPasswordReply::AuthorizationError);
+        auto *lib = QXmppPasswordChecker::getDigest(req);
+        if (autoFinish) {
+            return lib;
         }
         // the digest proves the password only if the script computed its response from the right one
-        bool ok = known && req.username() == scriptUser && creds.value(req.username()) == scriptPw;
+        bool ok = creds.contains(req.username()) && req.username() == scriptUser && creds.value(req.username()) == scriptPw;
+        auto *reply = takeOver(lib);
         ask(reply, "digest", req.username(), ok);
         return reply;
     }
@@ -95,10 +124,6 @@ public:
 
     void ask(QXmppPasswordReply *reply, const QString &op, const QString &user, bool ok)
     {
-        if (autoFinish) {
-            reply->finishLater();
-            return;
-        }
         pending.append({ reply, op, user, ok });
         log.append(QJsonObject { { "ev", "ask" }, { "op", op }, { "user", user }, { "ok", ok } });
     }
@@ -141,6 +166,7 @@ struct World {
         });
         checker.creds[kAtt] = kAttPw;
         checker.creds[kVic] = kVicPw;
+        checker.creds[kEmb] = kEmbPw;
         server.setDomain(kDomain);
         server.setLogger(&logger);
         server.setPasswordChecker(&checker);
@@ -302,10 +328,27 @@ struct Script {
     QString res;   // resource the server last reported to the attacker (bind result / bind 2), else "ra"
     int idx = 0;
 
+    // credential classes: WHO is named x WHAT secret the payload / digest response is computed with
     void creds(const QString &c, QString &user, QString &pw) const
     {
-        user = c == "otherUser" ? kVic : kAtt;
-        pw = c == "wrongPw" ? QStringLiteral("bad") : kAttPw;
+        static const QMap<QString, QPair<QString, QString>> table {
+            { "right", { kAtt, kAttPw } },                       // own account, its password
+            { "wrongPw", { kAtt, QStringLiteral("bad") } },      // own account, wrong password
+            { "ownEmpty", { kAtt, QString() } },                 // own account, empty password
+            { "otherUser", { kVic, kAttPw } },                   // the victim, the attacker's password
+            { "victimEmpty", { kVic, QString() } },              // the victim, empty password
+            { "unknownPw", { kNobody, kAttPw } },                // no such account, some password
+            { "unknownEmpty", { kNobody, QString() } },          // no such account, empty password
+            // no such account; the name embeds the victim's address (the name becomes the localpart of d->jid)
+            { "embedEmpty", { kVic + "@" + kDomain + "/y", QString() } },
+            { "embedBareEmpty", { kVic + "@" + kDomain, QString() } },
+            { "embedSlashEmpty", { kVic + "/y", QString() } },
+            // an account that exists under such a name and belongs to the attacker
+            { "embedKnown", { kEmb, kEmbPw } },
+        };
+        const auto e = table.value(c, { kAtt, kAttPw });
+        user = e.first;
+        pw = e.second;
     }
     QByteArray plainPayload(const QString &c) const
     {
